@@ -380,8 +380,30 @@ let run_pshist payload =
       L [A "decision"; A (match d with Allow -> "allow" | Deny -> "deny"); ids rs; ids es] in
   L (List.map sx_of_out outs)
 
+(* ---- tokens: <doc> (sched (n fail)...) (ewd 0|1) ---- *)
+let run_tokens payload =
+  match payload with
+  | [A doc; L (A "sched" :: steps); L [A "ewd"; A ewd]] ->
+    let src = str_of_atom doc in
+    let sched = List.map (function L [A n; A f] -> (nat_of_int (int_of_string n), f = "1") | _ -> failwith "sched") steps in
+    let has_fail = List.exists (fun (_, f) -> f) sched in
+    let rd = { r_rest = src; r_sched = sched; r_eof_with_data = (ewd = "1") } in
+    let fuel = nat_of_int (List.length src + List.length sched + 16) in
+    let ty = function TEOF -> 0 | TIdent -> 1 | TInt -> 2 | TReserved -> 3 | TString -> 4 | TOperator -> 5 | TUnknown -> 6 in
+    let show = function
+      | None -> L [A "out-of-fuel"]
+      | Some None -> L [A "error"]
+      | Some (Some ts) ->
+        L (A "ok" :: List.map (fun t -> L [A "t"; A (string_of_int (ty t.t_type)); A (string_of_cz t.t_off); A (string_of_cz t.t_line);
+                                           A (string_of_cz t.t_col); A (atom_of_str (match t.t_type with TEOF -> [] | _ -> t.t_text))]) ts) in
+    let m = show (tokenize fuel (nat_of_int 1024) rd) in
+    let sp = show (spec_tokenize fuel src) in
+    if (not has_fail) && m <> sp then L [A "model-differs-from-spec"; m; sp] else m
+  | _ -> failwith "tokens payload"
+
 let run_case kind payload =
   match kind with
+  | "tokens" -> run_tokens payload
   | "authz-abs" -> run_authz_abs payload
   | "eval" -> run_eval payload
   | "authz" -> run_authz payload
